@@ -141,11 +141,15 @@ def run_network(res):
         for nd in sorted({a for a, _, _ in spec} | {b_ for _, b_, _ in spec}):
             expect_accepts(res, "accepts_valid", {"group": "network", "base": name, "fault": "none", "ref": nd}, lambda nd=nd: build(None, nd))
     # load element reference-value rules
-    for kw in ({"V_ref": -1.0}, {"V_ref": 0.0}, {"V_ref": 5.0, "I_ref": 2.0}, {}, {"I_ref": 0.0}, {"V_ref": -3.0, "I_ref": -2.0}):
-        expect_raises(res, "rejects_bad_load_reference", {"group": "network", "fault": "load_reference", "kw": repr(kw)},
-                      lambda kw=kw: elm.load("L", P=10, **kw), "load with inadmissible reference values accepted")
+    # ... whatever the rated power is (an idle load P = Q = 0, a purely reactive one, a generator) and at every list position of the
+    # reference keywords
+    for pq in ({"P": 10}, {"P": 0}, {"P": 0, "Q": 0.0}, {"P": 0, "Q": 3.0}, {"P": -4}, {"P": 1e-12}):
+        for kw in ({"V_ref": -1.0}, {"V_ref": 0.0}, {"V_ref": 5.0, "I_ref": 2.0}, {}, {"I_ref": 0.0}, {"V_ref": -3.0, "I_ref": -2.0}, {"V_ref": -230.0}):
+            expect_raises(res, "rejects_bad_load_reference", {"group": "network", "fault": "load_reference", "kw": repr(kw), "power": repr(pq)},
+                          lambda kw=kw, pq=pq: elm.load("L", **pq, **kw), "load with inadmissible reference values accepted")
     for kw in ({"V_ref": 5.0}, {"I_ref": 2.0}):
-        expect_accepts(res, "accepts_valid", {"group": "network", "fault": "none", "kw": repr(kw)}, lambda kw=kw: elm.load("L", P=10, **kw))
+        for pq in ({"P": 10}, {"P": 0}, {"P": 0, "Q": 3.0}):
+            expect_accepts(res, "accepts_valid", {"group": "network", "fault": "none", "kw": repr(kw), "power": repr(pq)}, lambda kw=kw, pq=pq: elm.load("L", **pq, **kw))
 
 
 # ------------------------------------------------------------------ circuit layer
